@@ -50,8 +50,25 @@ Definition iitem_of_body_item (b : body_item) : iitem :=
   | BUnknown attrs v ts => IIOther (print_attrs attrs ++ v ++ ts)
   end.
 
+(** [segment.arguments.is_none()] of the last segment of the implemented trait's path, on its tokens: a last segment
+    without arguments ends the path with its identifier; [Fn(A) -> B] is the only form whose arguments can end with one *)
+Fixpoint has_arrow (ts : toks) : bool :=
+  match ts with
+  | a :: ((b :: _) as rest) => (is_p "-" a && is_p ">" b) || has_arrow rest
+  | _ => false
+  end.
+
+Definition ends_with_ident (ts : toks) : bool :=
+  match rev ts with TId _ :: _ => true | _ => false end.
+
+Definition path_has_arguments (trait_path : toks) : bool :=
+  negb (ends_with_ident trait_path) || has_arrow trait_path.
+
+Definition generic_args_msg : string := "Generic arguments on the implemented trait are not supported here".
+
 Definition output_for_impl (a : impl_attr) (attrs : list attr) (unsafety : bool) (trait_path self_ty : toks)
            (items : list body_item) : result (list item) :=
+  if path_has_arguments trait_path then Err (EMsg generic_args_msg) else
   let o := ia_opts a in
   let k := match ia_kind a with KStatic => RStaticImpl | KDynRef => RDynamicImpl end in
   let sigs := map (fun '(_, _, s, _) => s) (body_fns items) in
